@@ -329,6 +329,90 @@ def cwd_at_cases(r, tier, tables, spec, pdefs):
         c['src'] = 'cwd-at:rand'; out.append(c)
     return out
 
+# ---- family: a flag whose VALUE coincides with another candidate of the resolution chain -- first of all with the
+# built-in default of the option (`--merge-strategy inline`, `--port 0`, `--ip 127.0.0.1`, `--base-url /`,
+# `--log-level INFO`, `--workdirectory $PWD`), while configuration sections set the same option to something else.
+# "flag given" is a fact about the command line, not about the value: the flag must still win.  The defaults are the
+# ones observed on the entry point's own parser without any configuration (bases), so the family follows the tree.
+def expressible(o, d):
+    """can a command-line flag give option o the value d?"""
+    if d is None: return False
+    if o in BOOL_IGN: return isinstance(d, bool)
+    if o in ('persist', 'color_words'): return d is True            # store_true flags
+    if o in ('ignore_transients', 'show_base'): return d is False   # store_false flags
+    if o == 'port': return isinstance(d, int) and not isinstance(d, bool)
+    if not isinstance(d, str): return False
+    if o == 'log_level': return d in ('DEBUG', 'INFO', 'WARN', 'ERROR', 'CRITICAL')
+    try: flag_argv('nbdiff', o, d)
+    except KeyError: return False
+    return True
+
+def default_flags(ep, pdefs, bases):
+    """{option: built-in default} for the options of ep whose default can be written as a flag"""
+    ns = bases[ep]['ns']
+    return {o: ns[o] for o in pdefs[ep] if o != 'Ignore' and o in ns and expressible(o, ns[o])}
+
+def non_default(r, o, d):
+    w = other_value(r, o, d)
+    return w if w is not None else file_value(r, o)
+
+def gen_flag_eq(r, tables, spec, ep, docs_sections, pdefs, dflags, first):
+    """1-3 options given as flags with exactly their built-in default; every one of them is set to a non-default value
+    in 1-3 sections x 1-3 directories (sometimes to null in one of them); sometimes further flags with ordinary values,
+    one of which may repeat the value a section gives; sometimes unrelated assignments; 15% started from a Jupyter
+    configuration directory."""
+    relevant = spec.sections(ep)
+    files = {}; flags = {}
+    rest = [o for o in sorted(dflags) if o != first]
+    for o in [first] + r.sample(rest, min(len(rest), r.choice([0, 0, 0, 1, 2]))):
+        d = dflags[o]
+        secs = [s for s in relevant if o in tables['classes'].get(s, [])]
+        if not secs: continue
+        for s in r.sample(secs, min(len(secs), r.choice([1, 1, 2, 3]))):
+            for role in r.sample(ROLES, r.choice([1, 1, 2, 3])):
+                files.setdefault(role, {}).setdefault(s, {})[o] = None if r.random() < 0.06 else non_default(r, o, d)
+        flags[o] = d
+    if r.random() < 0.4:        # unrelated assignments, flags with ordinary values (possibly equal to a section's value)
+        extra = gen_files(r, tables, spec, ep, docs_sections)
+        for role, f in extra.items():
+            for s, sec in f.items():
+                for o, v in sec.items(): files.setdefault(role, {}).setdefault(s, {}).setdefault(o, v)
+    if r.random() < 0.4:
+        flaggable = [o for o in pdefs[ep] if o != 'Ignore' and o not in flags]
+        for o in r.sample(flaggable, min(len(flaggable), r.choice([1, 2]))):
+            try: v = flag_value(r, o)
+            except KeyError: continue
+            set_here = [sec[o] for f in files.values() for s, sec in f.items() if s in relevant and sec.get(o) is not None]
+            if set_here and r.random() < 0.5 and expressible(o, set_here[0]) and set_here[0] != '':
+                v = set_here[0]
+            flags[o] = v
+    case = {'ep': ep, 'files': files, 'flags': flags}
+    if r.random() < 0.15:       # started from the Jupyter directory `at`: the working-directory file is that directory's
+        at = r.choice(CWD_AT)
+        if 'cwd' in files:
+            f = files.pop('cwd'); files.setdefault(at, f)
+        case['cwd_at'] = at
+    return case
+
+def flag_eq_cases(r, tier, tables, spec, docs_sections, pdefs, bases):
+    out = []
+    eps = [ep for ep in sorted(EP_CLASS) if ep not in NO_PARSER and ep in bases]
+    dfl = {ep: default_flags(ep, pdefs, bases) for ep in eps}
+    # systematic: every entry point x every option whose default a flag can express x every section of the entry point
+    # that has the option: that section alone (one directory) sets a non-default value, the flag gives the default
+    for ep in eps:
+        for o in sorted(dfl[ep]):
+            for s in spec.sections(ep):
+                if o not in tables['classes'].get(s, []): continue
+                out.append({'ep': ep, 'files': {r.choice(ROLES): {s: {o: non_default(r, o, dfl[ep][o])}}},
+                            'flags': {o: dfl[ep][o]}, 'src': 'flag-eq-default:systematic'})
+    pairs = [(ep, o) for ep in eps for o in sorted(dfl[ep])]     # uniform over (entry point, option), not over entry points
+    n = 120 if tier == 'quick' else 1500
+    for _ in range(n if pairs else 0):
+        ep, o = r.choice(pairs)
+        c = gen_flag_eq(r, tables, spec, ep, docs_sections, pdefs, dfl[ep], o); c['src'] = 'flag-eq-default:rand'; out.append(c)
+    return out
+
 CORPUS = [
     {'ep': 'nbdiff', 'files': {'cwd': {'Global': {'log_level': 'DEBUG'}}}, 'flags': {}, 'src': 'witness:global_section_refuted'},
     {'ep': 'server', 'files': {'cwd': {'Web': {'port': 9000}}}, 'flags': {}, 'src': 'witness:server_port_refuted'},
@@ -350,7 +434,7 @@ CORPUS = [
     {'ep': 'nbshow', 'files': {'cwd': {'Diff': {'Ignore': {'/cells/*/outputs': True}}, 'NbMerge': {'Ignore': {'/metadata': ['foo']}}}}, 'flags': {}, 'src': 'foreign-sections'},
 ]
 
-def gen_cases(chk, tier, tables, spec, docs_sections, pdefs):
+def gen_cases(chk, tier, tables, spec, docs_sections, pdefs, bases=None):
     r = chk.rng
     cases = [dict(c) for c in CORPUS]
     # every (documented section, option, entry point) once on its own: the finite skeleton of the rule
@@ -365,6 +449,7 @@ def gen_cases(chk, tier, tables, spec, docs_sections, pdefs):
         c = gen_illtyped(r, tables, spec, docs_sections); c['src'] = 'illtyped'; cases.append(c)
     # appended last so that the pre-existing families see the same random stream as before
     cases += cwd_at_cases(r, tier, tables, spec, pdefs)
+    if bases is not None: cases += flag_eq_cases(r, tier, tables, spec, docs_sections, pdefs, bases)
     return cases
 
 # ------------------------------------------------------------------ running the implementation
@@ -535,7 +620,7 @@ def run(tier, seed):
     if st is None: return chk.finish('proof', ASSUME)
     spec, docs, tables, bases, pdefs = st
     T = {'setup': time.time() - chk.t0}; t = time.time()
-    cases = gen_cases(chk, tier, tables, spec, docs, pdefs)
+    cases = gen_cases(chk, tier, tables, spec, docs, pdefs, bases)
     results = run_shared([task_of(c) for c in cases])
     T['impl'] = time.time() - t; t = time.time()
     # ---- T2: the documented rule judged on the real code
@@ -601,7 +686,7 @@ def run(tier, seed):
     chk.notes.append('phase seconds: ' + ', '.join('%s=%.1f' % kv for kv in T.items()))
     chk.cov.update({
         'evaluations': len(cases), 'distinct_nontrivial': len(nontrivial),
-        'rule': 'entry point x config files in <=3 of 4 sandboxed directories (cwd, JUPYTER_CONFIG_PATH, JUPYTER_CONFIG_DIR, system) x flag subsets: corpus (refutation witnesses first), every (entry point, documented section, option) alone, random well-typed assignments (12% nulls, 15% sections of other entry points), ill-typed cases for T1 only, and the family "working directory = one of the three Jupyter directories" (every entry point x directory systematically with rival values in the other directories, plus random dense conflicts, 30% with flags); non-trivial = well-typed and at least one assignment in a section documented for the entry point, distinct by canonical JSON of (entry point, files, flags)',
+        'rule': 'entry point x config files in <=3 of 4 sandboxed directories (cwd, JUPYTER_CONFIG_PATH, JUPYTER_CONFIG_DIR, system) x flag subsets: corpus (refutation witnesses first), every (entry point, documented section, option) alone, random well-typed assignments (12% nulls, 15% sections of other entry points), ill-typed cases for T1 only, and the family "working directory = one of the three Jupyter directories" (every entry point x directory systematically with rival values in the other directories, plus random dense conflicts, 30% with flags), and the family "flag whose value equals the built-in default of the option" (defaults observed on the configuration-free parser; every entry point x flag-expressible default (merge_strategy, port, ip, base_url, workdirectory, log_level) x section having the option systematically: the section sets a non-default value, the flag gives the default; plus random cases with 1-3 such flags against 1-3 sections x 1-3 directories, 40% with further ordinary flags (half of them repeating the value of a section), 40% with unrelated assignments, 15% started from a Jupyter directory); non-trivial = well-typed and at least one assignment in a section documented for the entry point, distinct by canonical JSON of (entry point, files, flags)',
         'input_distribution': hist, 'traces_validated_against_impl': compared,
         'model_impl_mismatches': len(bad) if bad is not None else None,
         'discrepancies_with_documented_rule': len(failing_all), 'distinct_minimal_discrepancies': len(reps), 'exhaustive': False,
